@@ -44,7 +44,7 @@ def run(ctx: Ctx) -> dict:
     model(ctx, env)
     table = ctx.table(env)
     rng = random.Random(ctx.seed + 11)
-    n = 12 if ctx.quick else 300
+    n = 12 if ctx.quick else 1500
     ops = []
     for row in table:
         if gen.row_classes(row) is None:
@@ -63,7 +63,7 @@ def run(ctx: Ctx) -> dict:
     for b in (bics if not ctx.quick else rng.sample(bics, 1500)):
         ops.append({"op": "bic.parts", "t": cps(b), "ai": False})
     chars = string.ascii_uppercase + string.digits
-    for _ in range(2000 if ctx.quick else 20000):
+    for _ in range(2000 if ctx.quick else 100000):
         ln = rng.choice((8, 11))
         t = "".join(rng.choice(chars) for _ in range(4)) + rng.choice(["DE", "FR", "GB", "US", "CH", "NL", "IT"]) + \
             "".join(rng.choice(chars) for _ in range(ln - 6))
